@@ -389,7 +389,7 @@ def run_future_deque(args):
     late = [z3.And(started[j], z3.UGT(F.inv[1 + j], F.inv[0])) for j in range(nwakes)]
     if nwakes and k_last:
         woke_last = z3.Or(*[z3.And(late[j], F.res[1 + j] == E.BV8(k_last)) for j in range(nwakes)])
-        v["lost wake-up: woken after the future's last poll, yet the slot is not marked activated or the deque's latest task waker was not invoked"] = z3.And(
+        v["lost wake-up: a wake that came after the deque last consumed the slot's activation left the slot not activated, or no such wake invoked the deque's latest task waker"] = z3.And(
             F.outcome == E.BV8(12), z3.Or(*late), z3.Not(z3.And(F.curL["act"] == E.BV8(1), woke_last)))
     nstarted = sum([z3.If(c, E.BV8(1), E.BV8(0)) for c in started], E.BV8(0))
     v["contained future polled although it was neither just inserted nor woken"] = z3.UGT(F.curL["futn"], E.BV8(1) + nstarted)
@@ -402,7 +402,7 @@ def run_future_deque(args):
     if nwakes and k_last and "ready" not in fut and "drop" not in own:
         tq = time.time()
         r, m = enc.check(done, z3.Or(*late), F.outcome == E.BV8(12), timeout_s=args.timeout)
-        out["queries"].append(dict(q="witness: a wake after the future's last poll exists", result=str(r), s=round(time.time() - tq, 2)))
+        out["queries"].append(dict(q="witness: a wake after the last consumed activation exists", result=str(r), s=round(time.time() - tq, 2)))
         if r != z3.sat:
             out.update(verdict="vacuous" if r == z3.unsat else "timeout", detail="the lost-wake-up monitor's antecedent is unreachable")
             return out
@@ -418,7 +418,7 @@ def run_future_deque(args):
         labels = [lab for lab, e in v.items() if z3.is_true(ev(e))]
         fin = dict(bad=ev(F.bad).as_long(), race=ev(F.race).as_long(), ref_count=ev(F.curL["ref"]).as_long(), activated=ev(F.curL["act"]).as_long(),
                    future_polls=ev(F.curL["futn"]).as_long(), owner_refs_live=ev(dlive).as_long(), waker_thread_refs_live=wlive, parent_waker=ev(F.aw_id).as_long(),
-                   woken_mask=ev(F.woken).as_long(), last_future_poll_step=ev(F.inv[0]).as_long(),
+                   woken_mask=ev(F.woken).as_long(), last_consumed_activation_step=ev(F.inv[0]).as_long(),
                    wakes=[dict(started=str(ev(started[j])), swap_step=ev(F.inv[1 + j]).as_long(), parent_invoked=ev(F.res[1 + j]).as_long()) for j in range(nwakes)],
                    counts={k_: ev(v_).as_long() for k_, v_ in F.cnt.items()})
         out.update(verdict="violation", labels=labels, trace=enc.trace(m), final=fin)
